@@ -116,10 +116,6 @@ def config_classes(seed, quick):
          {"platform": {"extra": {0x16: v}, "raw_domain": None}, "use_platform_registers": False}),
         ("DomainRenamer usb->phyb", cfg_rst(3, "rst", domain="phyb")),
     ]
-    if quick:
-        # keep the quick tier small: the two reset records + a seed-rotated half of the rest (all classes in two seeds)
-        rest = out[2:]
-        out = out[:2] + [c for k, c in enumerate(rest) if (k + seed) % 2 == 0 or "platform registers +" in c[0]]
     return out
 
 
@@ -583,7 +579,7 @@ def check_C22(rep):
     classes = [c for c in config_classes(rep.seed, quick) if "record" in c[1]]
     for name, config in classes:
         cscripts = []
-        for k in range(4 if quick else 25):
+        for k in range(3 if quick else 25):
             n = 200
             sc = {"n": n, "choices": phy_choices(rng, n, rx_rate=0.15, acc_p=1.0, clean=True, maxlen=8),
                   "phy": {"clean_rx": True, "max_stall": 3}, "resets": set(rng.sample(range(10, n - 30), 2))}
@@ -706,7 +702,7 @@ def check_C23(rep):
     items = run_scripts(rep, scripts)
     for trace, meta in items:
         tx_nontriv(rep, trace)
-    cfg = tlc.render_cfg(_cfg("UlpiTxTrace.cfg.tmpl"), {"MaxStart": 8})
+    cfg = tlc.render_cfg(_cfg("UlpiTxTrace.cfg.tmpl"), {"MaxStart": 8, "Startup": 0})
     validate(rep, "UlpiTxTrace", cfg, items, classify_tx)
 
     # configuration sweep: RESETB/clock records with the start-up wait, domain resets in mid-packet, platform raw clock
@@ -714,17 +710,20 @@ def check_C23(rep):
     classes = [c for c in config_classes(rep.seed, quick) if "record" in c[1]]
     for name, config in classes:
         cscripts = []
-        for k in range(4 if quick else 25):
+        for k in range(3 if quick else 25):
             sc = tx_script(rng, 240, rng.randint(3, 6), rng.choice([1, 3, 6]), [0, 0, 1, 2, 2, 3],
                            rng.choice([0.4, 1.0]), rng.choice([0.0, 0.05]))
             sc["resets"] = set(rng.sample(range(10, 180), rng.choice([1, 2])))
+            sc["starts"] = set(sc["starts"]) | {1} | {t + rng.randint(1, 3) for t in sc["resets"]}
+            sc["packets"] = sc["packets"] + packets(rng, 3, 3)
             cscripts.append((sc, {"class": "clean", "origin": "config-sweep", "config": name}))
         citems = run_scripts(rep, cscripts, config)
         for trace, meta in citems:
             tx_nontriv(rep, trace)
             rep.nontriv(("config", name.split(" startup")[0]))
         nx = len(config.get("extra", [])) + len((config.get("platform") or {}).get("extra") or {})
-        cfg = tlc.render_cfg(_cfg("UlpiTxTrace.cfg.tmpl"), {"MaxStart": 8 + config["startup"] + 4 + 12 * nx})
+        cfg = tlc.render_cfg(_cfg("UlpiTxTrace.cfg.tmpl"), {"MaxStart": 8 + config["startup"] + 4 + 12 * nx,
+                                                             "Startup": config["startup"]})
         validate(rep, "UlpiTxTrace", cfg, citems, classify_tx)
         items += citems
     rep.extra["configurations"] = ["base: plain record, handle_clocking=False"] + [n for n, _ in classes]
@@ -877,7 +876,7 @@ def check_C24(rep):
         real = "real 1 ms" in name
         xs = [a for a, k, _, _ in config.get("extra", []) if k == "sig"]
         cscripts = []
-        for k in range(1 if real else (5 if quick else 30)):
+        for k in range(1 if real else (3 if quick else 30)):
             n = 60400 if real else 230
             sc = reg_script(rng, n if not real else 400, k % 2 == 0, maxlen, max_stall)
             sc["n"] = n
@@ -887,6 +886,11 @@ def check_C24(rep):
                 sc["ctrl"] = {20: {"opm": 1}, 60150: {"opm": 2, "idpu": 1}}
             if "record" in config and not real:
                 sc["resets"] = set(rng.sample(range(20, n - 80), rng.choice([1, 1, 2])))
+                # a transmission and a pending register change wait right behind every reset
+                sc["starts"] = set(sc["starts"]) | {1} | {t + rng.randint(1, 3) for t in sc["resets"]}
+                sc["packets"] = sc["packets"] + packets(rng, 3, 3)
+                if k % 2:
+                    sc["ctrl0"] = {"opm": rng.choice([1, 2]), "idpu": 1}
             if xs:
                 sc["xsig"] = {t: {a: rng.choice([0x00, 0x10, 0x22, 0xFF, rng.randrange(256)]) for a in xs}
                               for t in rng.sample(range(3, n - 70), rng.randint(1, 5))}
@@ -899,7 +903,35 @@ def check_C24(rep):
         cfg = tlc.render_cfg(_cfg("UlpiRegTrace.cfg.tmpl"), consts)
         validate(rep, "UlpiRegTrace", cfg, citems, classify_reg)
         items += citems
-    rep.extra["configurations"] = ["base: plain record, handle_clocking=False, no extra registers"] + [n for n, _ in classes]
+    rep.extra["configurations"] = ["base: plain record, handle_clocking=False, no extra registers"] + \
+        [n for n, _ in classes] + ["ULPIRegisterWindow alone (arguments changed right after the request strobe)"]
+
+    # 4. the register window as a part: write/read requests whose address / write_data inputs change right after
+    #    the request strobe ("we'll stop latching these in as soon as we're busy"), NXT delays, DIR interruptions
+    from ..hosts.ulpi_phy import WindowDecoderBench
+    wbench = WindowDecoderBench()
+    witems = []
+    for k in range(8 if quick else 80):
+        ch, ops = [{}, {}], {}
+        while len(ch) < 170:
+            if rng.random() < 0.3:
+                ch += [{"rx": "up"}] + [{"rx": "cmd", "b": rng.choice(IDLE_CMDS)} for _ in range(rng.randint(1, 2))] + \
+                      [{"rx": "down"}, {}]
+            a = rng.choice([0x16, 0x31, 0x16, 0x31, 0x05])
+            ops[len(ch) - rng.choice([0, 0, 2, 3])] = ("read", a) if (a == 0x05 or rng.random() < 0.2) else \
+                ("write", a, rng.randrange(256))
+            ch += [{}] * rng.choice([4, 9, 14])
+        ch = [dict(c, acc=rng.random() < 0.6) for c in ch]
+        recs, phy, reads = wbench.run({"n": len(ch) + 40, "choices": ch, "ops": ops, "regs": {0x16: 0x11, 0x31: 0x22},
+                                       "phy": {"max_stall": max_stall}, "scramble": rng})
+        rep.add_eval(len(recs))
+        reg_nontriv(rep, recs)
+        witems.append((recs, {"class": "clean", "origin": "window-args-scrambled", "dut": "ULPIRegisterWindow",
+                              "ops_completed": len(reads)}))
+    consts = config_constants({"extra": [(0x16, "const", 0, None), (0x31, "const", 0, None)],
+                               "phy_regs": {0x16: 0x11, 0x31: 0x22}}, maxlen, max_stall)
+    consts["WBound"] += 60          # requests queue up behind each other in this bench
+    validate(rep, "UlpiRegTrace", tlc.render_cfg(_cfg("UlpiRegTrace.cfg.tmpl"), consts), witems, classify_reg)
     clean = [(t, m) for t, m in items if m["class"] == "clean"]
     rep.notes.append("%d clean / %d raw+witness traces; PHY register writes observed: %d" % (
         len(clean), len(items) - len(clean), sum(1 for t, _ in items for i in range(1, len(t))
